@@ -624,10 +624,10 @@ class C02Award(Monitor):
         if s is None or sn is None or s.status:
             return
         # every pot fully awarded, in equal parts per board (first board takes the odd chips)
-        if s.divmod is impl.putil.divmod and len(sn['live']) > 1:
+        if len(sn['live']) > 1:
             for pi, (r, u, pl) in enumerate(sn['pots']):
                 per_board = [sum(t for (k, t) in self.pushed.get((pi, b), [])) for b in range(sn['boards'])]
-                q, rem = divmod(u, sn['boards'])
+                q, rem = s.divmod(u, sn['boards'])
                 exp = [q + (rem if b == 0 else 0) for b in range(sn['boards'])]
                 if per_board != exp:
                     self.report('boards_even', 'board_split', f'pot {pi} unraked {u}: per board {per_board}, expected {exp}')
